@@ -125,6 +125,9 @@ op('is_flint', 'fp', C02, FPS, 'b', 'm', 'xsimd::is_flint(a)', S.is_flint_spec)
 op('is_even', 'fp', C02, FPS, 'b', 'm', 'xsimd::is_even(a)', S.is_even_spec)
 op('is_odd', 'fp', C02, FPS, 'b', 'm', 'xsimd::is_odd(a)', S.is_odd_spec)
 op('nextafter', 'fp', C02, FPS, 'bb', 'b', 'xsimd::nextafter(a, b)', S.nextafter_spec, tree=True)
+op('ldexp', 'fp', ['C02'], FPS, 'bx', 'b', 'xsimd::ldexp(a, x)', WS.ldexp_spec, whole=True)
+op('frexp_m', 'fp', ['C02'], FPS, 'b', 'b', '[&] {{ B_<{IT}> e_; return xsimd::frexp(a, e_); }}()', WS.frexp_m_spec, whole=True)
+op('frexp_e', 'fp', ['C02'], FPS, 'b', 'R_<{IT}>', '[&] {{ B_<{IT}> e_; xsimd::frexp(a, e_); return e_; }}()', WS.frexp_e_spec, whole=True)
 
 # ---- C03 (masks) ---------------------------------------------------------------
 from engine import terms as _T
